@@ -114,7 +114,7 @@ PROPS = {
     "C14": {"claim": "Lean 4 theorems about Graph::add_build: a statement naming an output that another statement already produces is rejected (it can never take the file over: claiming only writes the new id, so the offending entry is still there when the loop reaches it), for any position among the outputs and after any inputs were registered; repeated outputs inside one statement are de-duplicated to a duplicate-free list with the same members; the latent `explicit` miscount of remove_duplicates is exhibited. Tied to the real loader on manifests with injected duplicates (across statements, within one, ./ and x/../ spellings, via includes): error kind + both locations and warning counts compared.",
             "props": ["C14"], "modes": ["load"], "level": "proof", "nontrivial": {"load": _load_nontrivial},
             "rule": LOAD_RULE, "assumptions": LOAD_ASSUME, "trusted_base": LOAD_TB,
-            "monitors": []},
+            "monitors": ["singleProducer"]},
     "C07": {"claim": "Lean 4 theorems for ALL record lists within the field widths and ALL cut points: a complete record is read back exactly whatever follows; a record of which only k < len bytes were written is not read at all; hence parse(log ++ torn tail) = exactly the complete records with their length as the intact prefix; a torn signature is an empty log; after truncating to the intact prefix and appending, the file parses to survivors ++ new records (so it stays loadable for ever). Tied to the real db.rs by byte-exact comparison of written logs and by opening EVERY byte prefix of each log with the real db::open (then appending and re-reading); monitors startsNormally / survivorsExact / laterLoadable are evaluated in Lean against the specification 'records wholly inside the first k bytes'.",
             "props": ["C07"], "modes": ["db"], "level": "proof", "nontrivial": {"db": _db_nontrivial},
             "rule": DB_RULE, "assumptions": DB_ASSUME, "trusted_base": DB_TB,
@@ -130,7 +130,7 @@ PROPS = {
     "C05": _sched("Lean 4 theorems: Work::run reports success only with no failed task and nothing pending; with the invariant, nothing pending means every build is Unknown, Done or Failed; a Failed producer blocks the readiness gate of its dependents; the want phase cannot revive a Failed build. Tied to the real scheduler by trace equality; monitors failuresContained, budgetRespected, exitOk, stopsOnInterrupt evaluated on the implementation's trace.",
                   ["C05"], ["failuresContained", "budgetRespected", "exitOk", "stopsOnInterrupt"]),
     "C06": _sched("Lean 4 theorems: an error while collecting the wanted set (dependency cycle) returns before the run loop, so nothing starts; the diagnostic has the documented shape; readiness never looks at validation inputs; inherited Done states survive the second want phase; the run loops are total functions. Termination without the BUG outcome and 'all wanted Done when nothing fails' are so far checked by the monitor `decided`/`exitOk` on every implementation trace (cyclic, validation-cyclic and acyclic graphs) and by trace equality with the model; the progress-measure proof is in progress.",
-                  ["C06"], ["decided", "exitOk"]),
+                  ["C06"], ["decided", "exitOk", "cycleSound", "cycleComplete"]),
     "C18": _sched("Lean 4 theorems: target lookup is invariant under spellings with equal canonical form; an unknown name is rejected (outside restat mode) before later targets are considered; the manifest named as target is skipped; wanting more targets only turns Unknown builds into Want/Ready. Tied to the real run::build by trace equality (targets / defaults / all-files choice is part of the model); monitors onlyWanted and closureComplete (the set of builds that left Unknown = closure over ordering+validation producers of the resolved targets) evaluated on the implementation's trace.",
                   ["C18"], ["onlyWanted", "closureComplete"]),
     "C19": _sched("Lean 4 theorems: initially and across every state transition each UI count equals the number of non-phony builds in that state and `pending` the number of Want/Ready/Queued/Running builds (so the isize/usize casts never wrap: all counts in [0, #builds]); the want phase changes no finished count nor tasks_run. Tied to the real scheduler by trace equality including the counts of every transition; monitors countsOk (per update: counts = recomputed from transitions, running = started-finished, done/failed monotone) and summaryOk (ran N = successful commands) evaluated on the implementation's trace.",
